@@ -190,10 +190,12 @@ class ProjectConfig:
             return "error"
 
         cached = self.cache(l10n_file.locale)
-        if any(p.match(l10n_file.fullpath) for p in cached.l10n_paths):
+        if any(
+            p.match(l10n_file.fullpath) is not None for p in cached.l10n_paths
+        ):
             action = "error"
             for rule in reversed(cached.rules):
-                if not rule["path"].match(l10n_file.fullpath):
+                if rule["path"].match(l10n_file.fullpath) is None:
                     continue
                 if ("key" in rule) ^ (entity is not None):
                     # key/file mismatch, not a matching rule
